@@ -64,7 +64,7 @@ def run(ctx) -> None:
     rets = [n for n in walk_local(cans.node) if isinstance(n, ast.Return) and n.value is not None and not (isinstance(n.value, ast.Constant) and n.value.value is None)]
     ok = bool(rets) and all(isinstance(r.value, ast.Call) and "_active_from_entrypoints" in call_names(db, r.value, cans) and "entrypoints_config" in src(r.value.args[0]) for r in rets)
     none_guard = any(isinstance(n, ast.If) and "entrypoints_config is None" in src(n.test) for n in walk_local(cans.node))
-    rep.add("C16.R1", f"{cans.qname}:from-current-entrypoints", ok and none_guard, cans.loc(), "active set is recomputed from graph.entrypoints_config on every run (None = all nodes)" if ok and none_guard else "the active set is not recomputed from the graph's current entry points (a cached view would survive with_entrypoint/bind/select on a derived graph)")
+    rep.add("C16.R1", f"{cans.qname}:from-current-entrypoints", ok and none_guard, cans.loc(), "active set is recomputed from graph.entrypoints_config on every run (None = all nodes)" if ok and none_guard else "the active set is not exactly the forward closure of the graph's current entry points (a cached view would survive with_entrypoint/bind/select on a derived graph; anything added to the closure - a controlling gate, a producer - is a node upstream of the entry points that may execute)")
     g = db.cls("graph.core.Graph")
     ep = g.methods.get("entrypoints_config")
     ok = ep is not None and ep.is_property and not any(d.endswith("cached_property") for d in ep.decorators) and any(isinstance(n, ast.Return) and src(n.value) == "self._entrypoints" for n in walk_local(ep.node))
